@@ -65,12 +65,12 @@ begin
   op_rem_2 <= buffer_op_rem_2;
   
   -- CONCURRENT BLOCK (logic_simple)
-  temp <= (input) + (-8);
+  temp <= (input) + (2);
   buffer_op_add <= temp;
-  temp1 <= (input) - (-8);
+  temp1 <= (input) - (2);
   buffer_op_sub <= temp1;
-  temp2 <= (-8) + (input);
+  temp2 <= (2) + (input);
   buffer_op_add_2 <= temp2;
-  temp3 <= (-8) - (input);
+  temp3 <= (2) - (input);
   buffer_op_sub_2 <= temp3;
 end architecture arch_test_operations_const;
